@@ -12,5 +12,6 @@ INVARIANT BatchSubjects
 INVARIANT BatchObjects
 INVARIANT NonVacuous
 INVARIANT OutcomeWF
+INVARIANT LawsCopyAgrees
 PROPERTY Monotone
 CHECK_DEADLOCK FALSE
